@@ -431,6 +431,34 @@ theorem keysDistinguished_keyed {S : Schema} (hS : K13.schemaOK S = true) {A B :
   K13.keysDistinguished_of_keyOrderOn (K13.keyOrderOn_keyed hS) (A ++ B) (K13.wfL_append hA hB)
     (by rw [K13.allPL_append, K13.keyedT_of_wf hA hcA, K13.keyedT_of_wf hB hcB]; rfl)
 
+/-- `merge_apply_first_empty` with no hypothesis on the `sort` callbacks -/
+theorem merge_apply_first_empty_keyed {S : Schema} (hS : K13.schemaOK S = true) (o : MergeOpts) (fx : Fixes) (A C : List DNode)
+    (hA : wfForest S A = true) (hC : wfForest S C = true) (hcA : K13.canonT S A = true) (hcC : K13.canonT S C = true) :
+    mergeDiff o S (diff S true A A) (diff S true A C) = .ok ((diff S true A C).map cop) ∧
+      ∃ C', mergeApply S true o A A C fx = .ok C' ∧ dataEqL true C' C = true :=
+  merge_apply_first_empty S o fx A C hA hC (keysDistinguished_keyed hS hA hC hcA hcC)
+
+/-- `merge_apply_second_empty` with no hypothesis on the `sort` callbacks -/
+theorem merge_apply_second_empty_keyed {S : Schema} (hS : K13.schemaOK S = true) (o : MergeOpts) (fx : Fixes) (A B : List DNode)
+    (hA : wfForest S A = true) (hB : wfForest S B = true) (hcA : K13.canonT S A = true) (hcB : K13.canonT S B = true) :
+    ∃ C', mergeApply S true o A B B fx = .ok C' ∧ dataEqL true C' B = true :=
+  merge_apply_second_empty S o fx A B hA hB (keysDistinguished_keyed hS hA hB hcA hcB)
+
+/-- computed diffs chain exactly, relative to `keyedOK` — the hypotheses under which a tree-level `merge_apply_partial` can use
+`merge_cell_apply_on` -/
+theorem diff_chain_exact_keyed {S : Schema} (hS : K13.schemaOK S = true) (fx : Fixes) (A B C : List DNode)
+    (hA : wfForest S A = true) (hB : wfForest S B = true) (hC : wfForest S C = true) (hcA : K13.canonT S A = true)
+    (hcB : K13.canonT S B = true) (hcC : K13.canonT S C = true) :
+    K13.exactDiff S (K13.keyedOK S) A (diff S true A B) = true ∧
+    ∃ B', apply S A (diff S true A B) fx = .ok B' ∧ K13.goodT S (K13.keyedOK S) B' = true ∧ dataEqL true B' B = true ∧
+      K13.exactDiff S (K13.keyedOK S) B' (diff S true B C) = true := by
+  have K := K13.keyOrderOn_keyed hS
+  have hpA := K13.keyedT_of_wf hA hcA
+  have hpB := K13.keyedT_of_wf hB hcB
+  have hpC := K13.keyedT_of_wf hC hcC
+  obtain ⟨B', h1, h2, h3, h4⟩ := K13.diff_chain_exact K fx A B C hA hB hC hpA hpB hpC
+  exact ⟨K13.exactDiff_diff K.pinv A B hA hB hpA hpB, B', h1, h2, (dataEqL_iff_norm B' B).mpr h3, h4⟩
+
 /-- the keyed list of `merge_cancel_diff` above (string key), two instances differing in the key, nested changes: the old
 hypothesis `KeyOrder mcS` is unsatisfiable, the new statement applies -/
 example : K13.schemaOK mcS = true ∧ K13.canonT mcS mcA = true ∧ K13.canonT mcS mcB = true := by decide +kernel
@@ -440,6 +468,52 @@ example : ∃ B' R M C' A', apply mcS mcA (diff mcS true mcA mcB) = .ok B' ∧ r
   merge_apply_reverse_keyed (by decide +kernel) (by decide +kernel) (by decide +kernel) (by decide +kernel) (by decide +kernel)
 example : KeysDistinguished mcS (mcA ++ mcB) :=
   keysDistinguished_keyed (by decide +kernel) (by decide +kernel) (by decide +kernel) (by decide +kernel) (by decide +kernel)
+
+/-! non-vacuity of `merge_cell_apply_on`: the leaf `top` next to the instances of the keyed list `l` (the sibling list `mcA`),
+`t -> u` merged with `u -> w` -/
+def mcT : DNode := nReplace 4 {} (bs "u") false (bs "t")
+def mcSrc : DNode := nReplace 4 {} (bs "w") false (bs "u")
+/-- the node the cell (replace, replace) produces for them -/
+def mcM : DNode × Bool := match mergeCell mcS {} .replace mcT .replace mcSrc with | .ok p => p | .error _ => (mcT, false)
+
+theorem mcM_spec : mergeCell mcS {} .replace mcT .replace mcSrc = .ok (mcM.1, mcM.2) := by
+  have h : (mergeCell mcS {} .replace mcT .replace mcSrc).toBool = true := by decide +kernel
+  unfold mcM
+  cases hm : mergeCell mcS {} .replace mcT .replace mcSrc with
+  | ok p => rfl
+  | error e => rw [hm] at h; exact absurd h (by simp [Except.toBool])
+
+theorem mc_look_top : look mcS mcA mcT = some (.term 4 {} [] (bs "t")) := by
+  have h1 : ∀ k ks, matchP mcS mcT (mcL k ks) = false := by
+    intro k ks
+    simp [matchP, mcT, nReplace, mcL, DNode.sid]
+  have h2 : matchP mcS mcT (.term 4 {} [] (bs "t")) = true := matchP_leaf (by decide +kernel) rfl
+  simp [look, mcA, List.find?, h1, h2]
+
+example : ∃ L1 L2 L2', applyNode mcS {} 1 mcA false none mcT = .ok L1 ∧ applyNode mcS {} 1 L1 false none mcSrc = .ok L2 ∧
+    (if (isRedundant mcS none mcM.1).2 then Except.ok mcA
+      else applyNode mcS {} 1 mcA false none (isRedundant mcS none mcM.1).1) = .ok L2' ∧
+    normL13 L2' = normL13 L2 := by
+  have hleaf : mcS.isKind 4 .leaf = true := by decide +kernel
+  refine merge_cell_apply_on (K13.keyOrderOn_keyed (by decide +kernel)) (by decide) (by decide +kernel) hleaf rfl rfl rfl
+    (by decide +kernel) ?_ mcM_spec (by decide +kernel) (by decide +kernel) ?_ ?_
+  · intro k hk
+    have : keysOf mcS mcA = [] := by decide +kernel
+    rw [this] at hk; cases hk
+  · rw [mc_look_top]
+    exact merge_cell_replace_replace (o := {}) hleaf {} {} {} [] (bs "u") (bs "w") (bs "t") (by decide +kernel) (by decide +kernel)
+  · rw [mc_look_top]
+    decide +kernel
+
+example : ∃ C', mergeApply mcS true {} mcA mcA mcB = .ok C' ∧ dataEqL true C' mcB = true :=
+  (merge_apply_first_empty_keyed (by decide +kernel) {} {} mcA mcB (by decide +kernel) (by decide +kernel) (by decide +kernel)
+    (by decide +kernel)).2
+example : ∃ C', mergeApply mcS true {} mcA mcB mcB = .ok C' ∧ dataEqL true C' mcB = true :=
+  merge_apply_second_empty_keyed (by decide +kernel) {} {} mcA mcB (by decide +kernel) (by decide +kernel) (by decide +kernel)
+    (by decide +kernel)
+example : K13.exactDiff mcS (K13.keyedOK mcS) mcA (diff mcS true mcA mcB) = true :=
+  (diff_chain_exact_keyed (by decide +kernel) {} mcA mcB mcB (by decide +kernel) (by decide +kernel) (by decide +kernel)
+    (by decide +kernel) (by decide +kernel) (by decide +kernel)).1
 
 example : ∃ C', mergeApply mcS true { defaults := true } mcA mcA mcB = .ok C' ∧ dataEqL true C' mcB = true :=
   (merge_apply_first_empty mcS _ {} mcA mcB (by decide +kernel) (by decide +kernel)
